@@ -562,49 +562,61 @@ func runC03(c *Ctx) {
 				continue
 			}
 			obj = ef.Addr.Args[0]
-			v := ef.Val
-			if v.Op != "bin" || v.Aux != "+" {
-				// the initial store of the parsed pattern: any other transformation of the text
-				// (library call, slicing, concatenation) changes the language the rule accepts
-				for leaf, lc := range u.Leaves(v) {
-					if u.bdd.And(lc, ef.Cond) == False {
-						continue
-					}
-					tr := leaf.Op == "slice" || leaf.Op == "bin" || leaf.Op == "index" || leaf.Op == "conv" ||
-						(leaf.Op == "call" && !strings.HasPrefix(leaf.Aux, "rules.") && !strings.HasPrefix(leaf.Aux, "(*rules.") && !strings.HasPrefix(leaf.Aux, "(rules."))
+			// every alternative of the stored value, under the store's condition and its own
+			for v, lc := range u.Leaves(ef.Val) {
+				cond := u.bdd.And(lc, ef.Cond)
+				if cond == False {
+					continue
+				}
+				sep, isRewrite := "", false
+				if v.Op == "bin" && v.Aux == "+" {
+					sep, isRewrite = v.Args[1].StrVal()
+				}
+				if !isRewrite {
+					// the parsed pattern itself: any other transformation of the text (library call,
+					// slicing, concatenation) changes the language the rule accepts
+					tr := v.Op == "slice" || v.Op == "bin" || v.Op == "index" || v.Op == "conv" ||
+						(v.Op == "call" && !strings.HasPrefix(v.Aux, "rules.") && !strings.HasPrefix(v.Aux, "(*rules.") && !strings.HasPrefix(v.Aux, "(rules."))
 					if tr && bad2 == "" {
-						bad2 = c.P.Pos(ef.Pos) + ": besides the documented '/*' rewrite the constructor changes the pattern: it stores " + clip(u.Show(leaf), 100) + ", so the rule is not compiled from the pattern of the rule text"
+						bad2 = c.P.Pos(ef.Pos) + ": besides the documented '/*' rewrite the constructor changes the pattern: it stores " + clip(u.Show(v), 100) + ", so the rule is not compiled from the pattern of the rule text"
+					}
+					continue
+				}
+				n++
+				if sep != K["MaskSeparator"] {
+					bad = "the rewritten pattern does not end in the separator mask"
+				}
+				body := v.Args[0]
+				var hs *E
+				for _, at := range u.AtomsOf(cond) {
+					if at.Op == "call" && at.Aux == "strings.HasSuffix" && u.bdd.Implies(cond, u.Atom(at)) {
+						hs = at
 					}
 				}
-				continue
-			}
-			n++
-			sep, _ := v.Args[1].StrVal()
-			if sep != K["MaskSeparator"] {
-				bad = "the rewritten pattern does not end in the separator mask"
-			}
-			body := v.Args[0]
-			var hs *E
-			for _, at := range u.AtomsOf(ef.Cond) {
-				if at.Op == "call" && at.Aux == "strings.HasSuffix" && u.bdd.Implies(ef.Cond, u.Atom(at)) {
-					hs = at
+				switch {
+				case hs == nil:
+					bad = "the rewrite is not guarded by strings.HasSuffix(pattern, suffix)"
+				case body.Op == "slice":
+					suf, _ := hs.Args[1].StrVal()
+					d, ok := constDiff(u, u.Len(body.Args[0]), body.Args[2], u.Len(body.Args[0]))
+					if body.Args[0] != hs.Args[0] || (body.Args[1] != nil && !isIntConst(body.Args[1], 0)) || !ok || d != -int64(len(suf)) {
+						bad = fmt.Sprintf("the kept part is not pattern[:len(pattern)-len(%q)]", suf)
+					}
+				case body.Op == "call" && (body.Aux == "strings.TrimSuffix"):
+					if body.Args[0] != hs.Args[0] || body.Args[1] != hs.Args[1] {
+						bad = "TrimSuffix is applied to a different string/suffix than the guard"
+					}
+				default:
+					bad = "the kept part is computed by " + clip(u.Show(body), 80) + ", which is not 'remove exactly the suffix' (e.g. TrimRight treats its argument as a character set and strips every trailing '/' and '*')"
 				}
-			}
-			switch {
-			case hs == nil:
-				bad = "the rewrite is not guarded by strings.HasSuffix(pattern, suffix)"
-			case body.Op == "slice":
-				suf, _ := hs.Args[1].StrVal()
-				d, ok := constDiff(u, u.Len(body.Args[0]), body.Args[2], u.Len(body.Args[0]))
-				if body.Args[0] != hs.Args[0] || (body.Args[1] != nil && !isIntConst(body.Args[1], 0)) || !ok || d != -int64(len(suf)) {
-					bad = fmt.Sprintf("the kept part is not pattern[:len(pattern)-len(%q)]", suf)
+				// and the other alternative of the same store keeps the string the guard tested
+				if hs != nil {
+					for o, oc := range u.Leaves(ef.Val) {
+						if o != v && u.bdd.And(oc, ef.Cond) != False && o != hs.Args[0] && bad == "" {
+							bad = "where the suffix is absent the constructor stores " + clip(u.Show(o), 80) + ", not the pattern it tested"
+						}
+					}
 				}
-			case body.Op == "call" && (body.Aux == "strings.TrimSuffix"):
-				if body.Args[0] != hs.Args[0] || body.Args[1] != hs.Args[1] {
-					bad = "TrimSuffix is applied to a different string/suffix than the guard"
-				}
-			default:
-				bad = "the kept part is computed by " + clip(u.Show(body), 80) + ", which is not 'remove exactly the suffix' (e.g. TrimRight treats its argument as a character set and strips every trailing '/' and '*')"
 			}
 		}
 		_ = obj
